@@ -34,12 +34,15 @@ PRED_DOC = {
                      "non-local-only part of the real secondary store (local-scoped tokens are not listed)",
     "hash-faithful": "for one object, the hashes stored by the real code (SetHash, HashConfigEntry) are equal exactly when the "
                      "contents are equal - the diff relies on it to skip unchanged objects",
+    "round-writes": "the raft commands the REAL round function submitted (replicateACLType / replicateConfig / "
+                    "IndexReplicator.Replicate through leaderRaftApply on a real single-node raft) delete exactly the diff's "
+                    "deletions and upsert exactly its upserts, every id once, all accepted",
     "apply-ok": "every raft command built from the diff was accepted by the real FSM / state store",
     "apply-model": "the spec's ApplyDiff(pre, dels, ups, remote) equals the real store's post state (content view)",
     "env": "NOT a verdict: the harness fed an input outside the environment assumption (infrastructure error)",
 }
 PREDS = set(PRED_DOC) - {"env"}
-SLIM = ("typ", "kind", "last", "pre", "inL", "inR", "dels", "ups", "lskip", "rskip", "post", "err", "writes")
+SLIM = ("typ", "kind", "last", "pre", "inL", "inR", "dels", "ups", "lskip", "rskip", "post", "err", "writes", "cmds")
 SHOW = SLIM + ("errclass", "errmsg")
 
 ASSUMPTIONS = [
@@ -48,9 +51,13 @@ ASSUMPTIONS = [
     "already has the remote content (that is what a lastRemoteIndex returned by an earlier successful round means)",
     "identifiers are unique per side and identifiers of local-scoped tokens are not used by the primary (UUIDs)",
     "ACL objects with an id carry a hash (the endpoints call SetHash before the raft apply)",
-    "the harness applies the diff with the same raft commands the replicators build (batch delete, batch set with "
-    "AllowMissingLinks/FromReplication, one ConfigEntryRequest / FederationStateRequest per entry) through fsm.FSM.Apply; "
-    "leaderRaftApply, rate limiting and batching by size are not exercised",
+    "the round is executed by the REAL round functions (Server.replicateACLPolicies/Roles/Tokens -> replicateACLType, "
+    "Server.replicateConfig -> reconcileLocalConfig, IndexReplicator.Replicate over FederationStateReplicator) on a *Server that has "
+    "only fsm, a real single-node in-memory raft (leaderRaftApply unchanged), config, token store and an in-process RPC server whose "
+    "ACL / ConfigEntry / FederationState receivers stand in for the PRIMARY's list and batch-read endpoints over a real primary "
+    "state.Store; apply limits are set to 10^6/s; the diff itself is additionally recorded by a direct call of the real diff function "
+    "on the same stores",
+    "names of ACL policies and roles are unique within each datacenter",
     "content classes are computed by the harness as a digest of the real object's JSON form without hash and raft indexes",
 ]
 
@@ -61,7 +68,7 @@ ALL = ("acl", "config", "fed")
 def cfg_text(mode, kinds, ids, mis, lasts, legl=0, legr=0, lo=(), unhashed=False, perms=False, legcs=(1,), runok=True):
     s = lambda xs: "{" + ", ".join(str(x) for x in xs) + "}"
     b = lambda v: "TRUE" if v else "FALSE"
-    head = ("SPECIFICATION Spec\nCONSTANTS\n  Kinds = {%s}\n  Ids = %s\n  Cs = {1, 2}\n  LegacyCs = %s\n  Mis = %s\n  Lasts = %s\n"
+    head = ("SPECIFICATION Spec\nCONSTANTS\n  Kinds = {%s}\n  Ids = %s\n  Cs = {1, 7}\n  LegacyCs = %s\n  Mis = %s\n  Lasts = %s\n"
             "  MaxLegacyL = %d\n  MaxLegacyR = %d\n  LoIds = %s\n  Unhashed = %s\n  Perms = %s\n") % (
         ", ".join('"%s"' % k for k in kinds), s(ids), s(legcs), s(mis), s(lasts), legl, legr, s(lo), b(unhashed), b(perms))
     if mode == "mc":
@@ -129,6 +136,7 @@ def shuffled_case(c, typ, rng):
                 o["id"] = CONFIG_IDS[o["id"]]
         rng.shuffle(c[k])
     c["order"] = "given" if rng.random() < 0.5 else "store"
+    c["seed"] = rng.getrandbits(62)
     return c
 
 
@@ -178,6 +186,9 @@ def stats_of(rows, st):
         st["remote_run_at_end"] += bool(L and R and max(R) > max(L))
         st["empty_local"] += bool(R and not L)
         st["empty_remote"] += bool(L and not R)
+        # a deleted object and an upserted one need the same unique name (content 7 of policies / roles)
+        st["name_reused_by_create"] += bool(r["typ"] in ("policy", "role") and any(L[i]["c"] == 7 for i in r["dels"] if i in L)
+                                            and any(R[i]["c"] == 7 for i in r["ups"] if i in R))
 
 
 def validate_chunks(paths):
@@ -252,7 +263,7 @@ def run(tier):
     pred_hits, samples, nontrivial = {}, [], set()
     stats = {k: 0 for k in ("rounds", "deletes", "upserts_new", "upserts_changed", "skip_by_index", "skip_by_hash", "legacy_local",
                             "legacy_remote", "local_only", "unhashed", "already_equal", "local_run_at_end", "remote_run_at_end",
-                            "empty_local", "empty_remote")}
+                            "empty_local", "empty_remote", "name_reused_by_create")}
     cov = {"mc": [], "gen": [], "random": {}}
     n_cases = 0
     tagged = []
@@ -322,6 +333,13 @@ def run(tier):
             samples.append({"source": "random", **{k: r[k] for k in SLIM}, "accepted_by_tlc": True})
         for t in mc_threads:
             t.join()
+        if tier == "thorough" and not mc_errs:
+            # the order of the round matters in the model: "upserts before deletions" must NOT be always accepted
+            w = vf.tlc("ReplDiffMC", "w.cfg", workers=4, timeout=900, files={"w.cfg": cfg_text(
+                "mc", kinds=("acl",), ids=(1, 2), mis=(1,), lasts=(0,)).replace("InvRoundOK", "InvRoundOK InvUpsertsFirstAlsoFine")})
+            cov["order_witness"] = {"invariant": "InvUpsertsFirstAlsoFine", "violated_as_expected": w.violated == "InvUpsertsFirstAlsoFine"}
+            if w.violated != "InvUpsertsFirstAlsoFine":
+                raise vf.Infra("vacuous: the model does not distinguish deletions-first from upserts-first (%s)" % w.violated)
         if mc_errs:
             raise mc_errs[0]
         # --- vacuity
@@ -346,7 +364,7 @@ def run(tier):
                     "with at least one listed object",
             "samples": samples,
             "model_check": cov["mc"], "generation": cov["gen"], "random": cov["random"],
-            "exercised": stats,
+            "exercised": stats, "order_witness": cov.get("order_witness"),
             "predicates": sorted(PREDS), "predicate_doc": PRED_DOC,
             "rejected_steps_by_predicate": pred_hits,
             "known_findings_matched": verdict.known_hit,
